@@ -68,6 +68,9 @@ SCALARS = {"usize", "u8", "u16", "u32", "u64", "u128", "isize", "i8", "i16", "i3
            "bool", "char", "()"}
 
 
+STATE_MACHINES = {"impls::index::Stride"}
+
+
 def is_storage_type(s, F=None, _depth=0):
     """type string denotes something that can hold item data"""
     s = s.strip()
@@ -92,6 +95,8 @@ def is_storage_type(s, F=None, _depth=0):
         return False if re.match(r"\[(u|i)\d+; ", s) else True
     if s.startswith("<") and " as " in s:
         return False  # associated type projection (an index type): copyable bookkeeping
+    if strip_generics(s) in STATE_MACHINES:
+        return True
     if F is not None and _depth < 4:
         base = strip_generics(s)
         a = F.adts.get(base)
@@ -289,59 +294,65 @@ def store_type(effect):
     return body.locals[pl["l"]]["ty"]["peeled"]
 
 
-READ_API = {
-    ("Region", "index"), ("Codec", "decode"), ("IndexContainer", "index"),
-    ("IndexContainer", "iter"), ("Storage", "len"), ("Storage", "is_empty"),
-    (None, "index"), (None, "iter"), (None, "len"), (None, "get"), (None, "is_empty"),
-    ("IntoIterator", "into_iter"),
+LIFECYCLE_NAMES = {
+    "push", "reserve_items", "reserve_regions", "reserve", "clear", "merge_regions", "clone",
+    "clone_from", "default", "heap_size", "fmt", "serialize", "deserialize", "visit_seq",
+    "visit_map", "print", "report", "encode", "new_from", "with_capacity", "merge_capacity",
+    "copy", "extend", "push_storage", "expecting", "visit_newtype_struct", "visit_enum",
 }
 
 
+def _places_in(x, out):
+    if isinstance(x, dict):
+        if "l" in x and "p" in x and isinstance(x["p"], list):
+            for e in x["p"]:
+                if e.get("k") == "field" and "adt" in e and "name" in e:
+                    out.add((e["adt"], e["name"]))
+        for v in x.values():
+            _places_in(v, out)
+    elif isinstance(x, list):
+        for v in x:
+            _places_in(v, out)
+
+
+def field_mentions(F):
+    """(adt, field) -> set of item keys (closures attributed to their enclosing item) whose MIR
+    names that field in any place"""
+    if hasattr(F, "_field_mentions"):
+        return F._field_mentions
+    idx = {}
+    for b in F.bodies.values():
+        s = set()
+        _places_in(b.blocks, s)
+        for k in s:
+            idx.setdefault(k, set()).add(b.owner.get("item_key"))
+    F._field_mentions = idx
+    return idx
+
+
 def item_storage(cat, adt):
-    """fields of `adt` that its read API reads (DESIGN R-APPEND); for non-local types None"""
+    """fields of `adt` that hold item data: storage-typed fields that some body other than the
+    type's own write/lifecycle methods reads (Region::index, the read-item accessors that go
+    back through the region reference, iterators, ...).  Statistics that only push/merge/print
+    touch are therefore not item storage.  None for non-local types."""
     fields = cat.fields(adt)
     if not fields:
         return None
-    names = {f["name"] for f in fields}
+    F = cat.F
+    idx = field_mentions(F)
     res = set()
-    for b in cat.F.bodies.values():
-        if b.kind != "AssocFn" or b.self_adt != adt or b.in_tests():
+    for fd in fields:
+        f = fd["name"]
+        if is_phantom(fd["ty"]) or not is_storage_type(fd["ty"]["s"], F):
             continue
-        if (b.trait, b.name) not in READ_API:
-            continue
-        ctx, effs = cat.effects(b)
-        for e in effs:
-            for (f, rest) in self_field_targets(e, ctx):
-                if f in names:
-                    res.add(f)
-        # plain field reads (copies) without calls: scan statements
-        for bl in b.blocks:
-            for st in bl["stmts"]:
-                if st["k"] != "assign":
-                    continue
-                _scan_reads(st["rv"], names, res)
+        for item_key in idx.get((adt, f), ()):
+            ib = F.bodies.get(item_key)
+            if ib is None:
+                continue
+            if ib.derived:
+                continue
+            if ib.self_adt == adt and ib.name in LIFECYCLE_NAMES:
+                continue
+            res.add(f)
+            break
     return res
-
-
-def _scan_reads(rv, names, res):
-    def place(pl):
-        if pl["l"] == 1:
-            for e in pl["p"]:
-                if e["k"] == "field" and e.get("name") in names:
-                    res.add(e["name"])
-                    break
-    k = rv["k"]
-    if k in ("ref", "discr", "rawptr"):
-        place(rv["place"])
-    elif k in ("use", "cast", "unop"):
-        op = rv.get("op") or rv.get("a")
-        if isinstance(op, dict) and op.get("k") in ("copy", "move"):
-            place(op["place"])
-    elif k == "binop":
-        for o in (rv["a"], rv["b"]):
-            if o.get("k") in ("copy", "move"):
-                place(o["place"])
-    elif k == "aggregate":
-        for o in rv["ops"]:
-            if o.get("k") in ("copy", "move"):
-                place(o["place"])
